@@ -94,6 +94,9 @@ def run_case(case):
     ITerm2Image._TERM = case.get("term", "")
     captured = {}
     saved_ratio = term_image._cell_ratio
+    orig_ts = _common.get_terminal_size
+    if case.get("term_size"):  # a small terminal keeps dynamically sized renders small
+        _common.get_terminal_size = lambda: __import__("os").terminal_size(tuple(case["term_size"]))
     base_ts = _common.get_terminal_size
     orig = _common.BaseImage._get_render_data
 
@@ -183,8 +186,7 @@ def run_case(case):
     finally:
         _common.BaseImage._get_render_data = orig
         ITerm2Image._TERM = ""
-        if case.get("resize_during"):
-            _common.get_terminal_size = base_ts
+        _common.get_terminal_size = orig_ts
         if case.get("dynamic") is not None:
             term_image._cell_ratio = saved_ratio
 
